@@ -5,7 +5,7 @@
 import Rtcp.Tok
 import Rtcp.Model.Nack
 import Rtcp.Model.Enum
-import Rtcp.Spec.Wire
+import Rtcp.Spec.Select
 open Rtcp
 
 def run {α} (p : P α) (toks : List String) : Option α :=
@@ -182,7 +182,7 @@ def execOp (line : String) : String :=
             outStr p.encP fun (b, p') => hexOf b ++ " " ++ join (wBody p')
           else if kindOfName kind = none then bad
           else withPkt fun p => okHex p.enc
-    | "encspec" => withPkt fun p => okHex (Spec.encOrWire p)
+    | "encspec" => withPkt fun p => okHex (Spec.encOrWireAll p)
     | "size" => withPkt fun p => s!"ok {p.marshalSize}"
     | "hdr" => withPkt fun p => match p.header? with
         | some h => "ok " ++ join (wHeader h)
